@@ -75,7 +75,8 @@ CLAIMS = {
             "in everything reachable from equals, operator==, the hash functors, canonicalisation and compute_diff a "
             "source location is only copied, never compared, branched on, ordered or hashed (one listed kernel-only "
             "exception): shifting lines or moving a definition between files cannot change equality or the diff; "
-            "R-LOOPMEMO: nothing computed for one element of a loop is reused for the next through a never-reset flag",
+            "R-LOOPMEMO: nothing computed for one element of a loop is reused for the next through a never-reset flag; "
+            "R-NOPARMNAME: equality of function parameters reads nothing that carries the parameter's name",
             "other neutral edits (TU layout, declaration order, DIE de-duplication) are runtime",
             "§3 R-NOLOC; §4 C06"),
     "C12": ("non-interference by whole-program call-graph reachability (CHA) with a positive control",
